@@ -48,7 +48,7 @@ func (c *UDPClient) NewSession(ctx context.Context) (zerocopy.UDPClientSessionIn
 // Resolver is a scripted dns.SimpleResolver.
 type Resolver struct {
 	ID      string
-	Answers map[string][]netip.Addr // name -> addresses (empty slice => ErrDomainNoAssociatedIPs)
+	Answers map[string][]netip.Addr // name -> addresses (empty slice => no addresses: LookupIPs gives an empty list, LookupIP ErrDomainNoAssociatedIPs, as the real resolver does)
 	Errs    map[string]error        // name -> error
 	Default error                   // for unknown names (nil => ErrLookup)
 	Calls   int
@@ -60,9 +60,7 @@ func (r *Resolver) LookupIPs(ctx context.Context, name string) ([]netip.Addr, er
 		return nil, err
 	}
 	if a, ok := r.Answers[name]; ok {
-		if len(a) == 0 {
-			return nil, dns.ErrDomainNoAssociatedIPs
-		}
+		// like the real dns.Resolver: a name without addresses is an empty list here and an error only in LookupIP
 		return a, nil
 	}
 	if r.Default != nil {
@@ -75,6 +73,9 @@ func (r *Resolver) LookupIP(ctx context.Context, name string) (netip.Addr, error
 	ips, err := r.LookupIPs(ctx, name)
 	if err != nil {
 		return netip.Addr{}, err
+	}
+	if len(ips) == 0 {
+		return netip.Addr{}, dns.ErrDomainNoAssociatedIPs
 	}
 	return ips[0], nil
 }
